@@ -108,6 +108,25 @@ func shapes() []shape {
 			s := srvx.JSON(m)
 			return `{"index_name":"nsB",` + s[1:], true
 		}},
+		// the route's own valid body plus an index_name field naming ANOTHER index than the one in the
+		// path / the other fields (routes that take the index from the path ignore the field; the
+		// authorisation must not be decided by it)
+		{"extra-index-name-nsA", func(t srvx.Template) (string, bool) {
+			m := t.Body(srvx.Values{Index: "nsB", OtherIndex: "nsB", ID: "v0", Key: "kvkey"})
+			if _, ok := m["index_name"]; ok {
+				return "", false
+			}
+			m["index_name"] = "nsA"
+			return srvx.JSON(m), true
+		}},
+		{"extra-index-name-nsB", func(t srvx.Template) (string, bool) {
+			m := t.Body(srvx.Values{Index: "nsA", OtherIndex: "nsA", ID: "v0", Key: "kvkey"})
+			if _, ok := m["index_name"]; ok {
+				return "", false
+			}
+			m["index_name"] = "nsB"
+			return srvx.JSON(m), true
+		}},
 		{"case-variant-key", func(t srvx.Template) (string, bool) {
 			m := t.Body(srvx.Values{Index: "nsB", OtherIndex: "nsB", ID: "v0", Key: "kvkey"})
 			if _, ok := m["index_name"]; !ok {
@@ -190,7 +209,11 @@ func matrix(c *vk.Ctx) {
 				if method == "GET" {
 					bodies = []string{""}
 				} else {
-					bodies = []string{"", `{"index_name":"nsA"}`, `{"index_name":"nsB"}`, "raw-value"}
+					bodies = []string{"", `{"index_name":"nsA"}`, `{"index_name":"nsB"}`, "raw-value",
+						// an index_name field next to the fields of the path-addressed routes (index
+						// configuration, maintenance trigger): the path decides, not the field
+						`{"index_name":"nsA","delete_threshold":0.5,"refine_enabled":true,"refine_batch_size":77,"type":"vacuum"}`,
+						`{"index_name":"nsB","delete_threshold":0.5,"refine_enabled":true,"refine_batch_size":77,"type":"vacuum"}`}
 					// generated bodies only where the method can match the route
 					if rt.Method == "" || rt.Method == method {
 						for _, t := range tmpls {
@@ -246,6 +269,9 @@ func matrix(c *vk.Ctx) {
 							}
 						}
 						sort.Strings(changed)
+						if dbg := os.Getenv("VERIF_DEBUG_PATH"); dbg != "" && strings.Contains(path, dbg) && strings.Contains(body, "delete_threshold") {
+							fmt.Printf("DEBUG %s %s principal=%s body=%s -> %d %s changed=%v\n", method, path, p.name, trunc(body, 80), w.Code, trunc(w.Body.String(), 80), changed)
+						}
 						switch {
 						case p.role == "":
 							if w.Code != 401 && path != "/healthz" && path != "/.well-known/jwks.json" {
@@ -272,6 +298,16 @@ func matrix(c *vk.Ctx) {
 								if strings.HasPrefix(k, "ix:") && k != "ix:nsA" {
 									rep("namespaced-token-created-another-index", fmt.Sprint("changed: ", changed))
 									break
+								}
+							}
+							// a request whose path addresses another index is never served, whatever the
+							// body says (state comparison alone misses a change that an authorised
+							// principal applied identically just before)
+							for _, other := range []string{"nsB", "x-search"} {
+								if strings.HasPrefix(path, "/vector/indexes/"+other+"/") || path == "/vector/indexes/"+other {
+									if w.Code >= 200 && w.Code < 300 {
+										rep("namespaced-token-served-on-another-index", fmt.Sprintf("path addresses %s, status %d", other, w.Code))
+									}
 								}
 							}
 							bs := w.Body.String()
